@@ -1,6 +1,7 @@
 import VueJsx.Visitor
 import VueJsx.Canon
 import VueJsx.Oracle
+import VueJsx.Options
 open VueJsx
 
 /-- reads the driver protocol of tools/alpha.py: one `(case …)` S-expression per line -/
@@ -38,10 +39,28 @@ def runUnit (fn arg impl : String) : String :=
     else "?"
   if model == impl then s!"u\tok\tfn={fn}" else s!"u\tunit-diff\tfn={fn}\targ={encodeAtom arg}\tmodel={encodeAtom model}\timpl={encodeAtom impl}"
 
+partial def jsonOfNode : Node → Json
+  | .mk (.other "jnull") _ _ => .null
+  | .mk (.other "jbool") [b] _ => .bool (b == "true")
+  | .mk (.other "jnum") [n] _ => .num n
+  | .mk (.other "jstr") [s] _ => .str s
+  | .mk (.other "jstr") [] _ => .str ""
+  | .mk (.other "jarr") _ xs => .arr (xs.map jsonOfNode)
+  | .mk (.other "jobj") _ kvs => .obj (kvs.map fun kv => ((kv.atoms.headD ""), jsonOfNode (kv.kids.headD nNone)))
+  | _ => .null
+
+def renderOptions (o : Option OptionsV) : String :=
+  match o with
+  | none => "error"
+  | some o => s!"{o.transformOn} {o.optimize} {o.customElementPatterns} {o.mergeProps} {o.enableObjectSlots} {o.pragma} {o.resolveType}"
+
 def runCase (prop : String) (line : String) : String :=
   match parseNode line with
   | none => "?\tparse-error"
   | some (.mk (.other "unit") [fn, arg, impl] _) => runUnit fn arg impl
+  | some (.mk (.other "optunit") [impl] [j, validN]) =>
+    let model := renderOptions (parseOptions (fun s => validN.atoms.contains s) (jsonOfNode j))
+    if model == impl then "u\tok\tfn=options" else s!"u\tunit-diff\tfn=options\tmodel={encodeAtom model}\timpl={encodeAtom impl}"
   | some (.mk (.other "pair") [id, mode] [optsN, knownN, patN, commentsN, a, b]) =>
     let v := oraclePair mode (optsOfNode optsN) (envOfNodes knownN patN commentsN) a b
     s!"{id}\tpair\toracle={v.render}"
